@@ -145,7 +145,7 @@ func GenOp(t *rapid.T, opts Options) Op {
 func GenConfig(t *rapid.T) Config {
 	return Config{
 		Set:    rapid.IntRange(0, 3).Draw(t, "set") == 0,
-		Keys:   rapid.SampledFrom([]string{"int", "int", "int0", "string", "struct", "ptr"}).Draw(t, "keys"),
+		Keys:   rapid.SampledFrom([]string{"int", "int", "int0", "string", "struct", "ptr", "bytes"}).Draw(t, "keys"),
 		Order:  rapid.SampledFrom(OrderNames).Draw(t, "order"),
 		Flavor: rapid.SampledFrom(Flavors).Draw(t, "flavor"),
 	}
@@ -180,6 +180,8 @@ func RunPlan(opts Options) func(p Plan) (vk.Outcome, error) {
 			return runPlan(StructKeys, p, opts)
 		case "ptr":
 			return runPlan(PtrKeys, p, opts)
+		case "bytes":
+			return runPlan(BytesKeys, p, opts)
 		}
 		return vk.Outcome{}, fmt.Errorf("bad key type %q", p.Cfg.Keys)
 	}
